@@ -118,8 +118,58 @@ fn child(args: &Args) {
         let o2 = observe(db, &c.sql);
         writeln!(w, "{}", json!({"id": c.id, "first": obs_json(&o1), "second": obs_json(&o2)})).unwrap();
     }
+    // second family (raw SQL, compared across configurations only): tables with an index, predicates whose
+    // evaluation fails on some candidate rows (division by zero), larger inputs for the parallel index-scan
+    // filter, sort and hash-join build
+    for (fid, (setup, queries)) in extra_family(args.seed, args.thorough).iter().enumerate() {
+        let mut db = vibesql_storage::Database::new();
+        for st in setup {
+            vh::sql::must(&mut db, st);
+        }
+        for (qi, q) in queries.iter().enumerate() {
+            let o1 = observe(&mut db, q);
+            let o2 = observe(&mut db, q);
+            writeln!(w, "{}", json!({"id": 10_000_000 + fid * 100 + qi, "first": obs_json(&o1), "second": obs_json(&o2)})).unwrap();
+        }
+    }
     // what this process actually used
     writeln!(w, "{}", json!({"id": -1, "threads": rayon_threads(), "threshold_env": std::env::var("PARALLEL_THRESHOLD").ok()})).unwrap();
+}
+
+/// (setup statements, queries) of the raw-SQL family
+fn extra_family(seed: u64, thorough: bool) -> Vec<(Vec<String>, Vec<String>)> {
+    let n = if thorough { 40 } else { 8 };
+    let mut out = Vec::new();
+    for f in 0..n {
+        let mut r = Rng::new(seed, &format!("c04/extra/{}", f));
+        let nrows = 150 + r.below(250) as usize;
+        let mut setup = vec!["CREATE TABLE te (k INTEGER, d INTEGER, s VARCHAR(10))".to_string(), "CREATE TABLE tf (k INTEGER, w INTEGER)".to_string()];
+        let rows: Vec<String> = (0..nrows).map(|i| format!("({}, {}, '{}')", r.range(0, 60), if r.chance(1, 9) { 0 } else { r.range(1, 9) }, ["a", "b", "ab", ""][i % 4])).collect();
+        for chunk in rows.chunks(50) {
+            setup.push(format!("INSERT INTO te VALUES {}", chunk.join(", ")));
+        }
+        let rows2: Vec<String> = (0..(40 + r.below(80))).map(|_| format!("({}, {})", r.range(0, 60), r.range(0, 5))).collect();
+        setup.push(format!("INSERT INTO tf VALUES {}", rows2.join(", ")));
+        if f % 2 == 0 {
+            setup.push("CREATE INDEX ixe ON te (k)".to_string());
+        }
+        if f % 4 == 1 {
+            setup.push("CREATE INDEX ixf ON tf (k)".to_string());
+        }
+        let lo = r.range(0, 40);
+        let queries = vec![
+            format!("SELECT k, d FROM te WHERE k >= {} AND 100 DIV d > 10", lo),
+            format!("SELECT k, d FROM te WHERE k >= {} AND d > 0 AND 100 DIV d > 10 ORDER BY k, d", lo),
+            format!("SELECT COUNT(*), SUM(d) FROM te WHERE k < {}", lo + 10),
+            format!("SELECT te.k, te.d, tf.w FROM te JOIN tf ON te.k = tf.k WHERE tf.w > 1 ORDER BY te.k, te.d, tf.w"),
+            format!("SELECT k, COUNT(*), MIN(d), MAX(d) FROM te GROUP BY k ORDER BY k"),
+            format!("SELECT DISTINCT s, d FROM te WHERE k BETWEEN {} AND {} ORDER BY s, d", lo, lo + 15),
+            format!("SELECT k FROM te WHERE k IN (SELECT k FROM tf WHERE w = 2) ORDER BY k"),
+            format!("SELECT k, d FROM te WHERE k = {} AND 7 DIV (d - 1) >= 0 ORDER BY d", lo),
+        ];
+        out.push((setup, queries));
+    }
+    out
 }
 
 fn rayon_threads() -> usize {
@@ -183,7 +233,7 @@ fn main() {
                 }
             }
         }
-        if !st.success() || m.len() != cases.len() {
+        if !st.success() || m.len() < cases.len() {
             sum.finding("child-process-failed", 0, format!("configuration {} ended with {:?} after {} of {} cases", name, st.code(), m.len(), cases.len()), json!({"config": name}));
         }
         obs.push(m);
@@ -300,6 +350,41 @@ fn main() {
         }
         if sum.samples.len() < 4 && big && matches!(base.0, Obs::Rows(ref r) if r.len() > 1) {
             sum.sample(json!({"sql": c.sql, "table_sizes": dbs[c.k].tables.iter().map(|t| t.rows.len()).collect::<Vec<_>>()}));
+        }
+    }
+    // raw-SQL family: outcome (rows as a bag, key sequence when ordered; or error) must not depend on the configuration
+    for (fid, (_setup, queries)) in extra_family(args.seed, args.thorough).iter().enumerate() {
+        for (qi, q) in queries.iter().enumerate() {
+            let cid = (10_000_000 + fid * 100 + qi) as u64;
+            let base = match obs[0].get(&cid) {
+                Some(o) => o,
+                None => continue,
+            };
+            let ordered = q.contains("ORDER BY");
+            let show = |o: &Obs| obs_text(o).chars().take(300).collect::<String>();
+            for (ci, m) in obs.iter().enumerate() {
+                let (o1, o2) = match m.get(&cid) {
+                    Some(x) => x,
+                    None => continue,
+                };
+                sum.evaluations += 2;
+                let same = |a: &Obs, b: &Obs| match (a, b) {
+                    (Obs::Rows(x), Obs::Rows(y)) => bag(x) == bag(y) && (!ordered || x == y),
+                    (Obs::Err(_), Obs::Err(_)) | (Obs::Panic(_), Obs::Panic(_)) | (Obs::Alien(_), Obs::Alien(_)) => true,
+                    _ => false,
+                };
+                let case = json!({"classes": Vec::<&str>::new(), "family": "indexed / failing predicates (raw SQL)", "sql": q, "config": CONFIGS[ci].0, "never_parallel": show(&base.0), "this_config": show(o1)});
+                if !same(o1, o2) {
+                    sum.finding("repeated-execution-differs", cid, format!("[{}] the same query on the same state returned different results: {} vs {}", CONFIGS[ci].0, show(o1), show(o2)), case.clone());
+                }
+                if ci > 0 && !same(&base.0, o1) {
+                    sum.finding("result-depends-on-parallel-configuration", cid, format!("[{}] differs from never-parallel: {} vs {}", CONFIGS[ci].0, show(o1), show(&base.0)), case.clone());
+                }
+                if ci == 0 {
+                    log.log(cid, case);
+                    sum.count(match &base.0 { Obs::Rows(_) => "extra-family:rows", Obs::Err(_) => "extra-family:error", _ => "extra-family:other" });
+                }
+            }
         }
     }
     sum.notes.push(format!("configurations: {:?}", CONFIGS.iter().map(|(n, t, th)| format!("{} (PARALLEL_THRESHOLD={:?}, RAYON_NUM_THREADS={})", n, t, th)).collect::<Vec<_>>()));
